@@ -5,6 +5,7 @@ from __future__ import annotations
 import itertools
 import os
 import random
+import re
 import shutil
 import sys
 import tempfile
@@ -25,7 +26,7 @@ RULE = (
     "identity; parameters: render size, padding/alignment, loops/repeat 1..3, cache, terminal size, initial cursor "
     "row (top .. bottom, including rows that force scrolling), TTY vs non-TTY stdout, hide_cursor/echo_input, "
     "check_size/scroll/allow_scroll; animations that run to completion and animations ended by a Ctrl-C during the "
-    "k-th wait between frames; the byte stream is cut at every flush and executed on the reference terminal; "
+    "k-th wait between frames, while the k-th frame is being rendered or while it is being written (a prefix reaches the terminal); the byte stream is cut at every flush and executed on the reference terminal; "
     "distinct = distinct (api, subject kind, identity, still/animated, frames, loops, scroll class, padding class, "
     "validation outcome) tuples"
 )
@@ -133,6 +134,65 @@ def judge_stream(data, refs, order, rows, cols, personality, r0, res, final_extr
     return errs
 
 
+_CURSOR_ONLY = re.compile(r"\A[\r\n]*(?:\x1b\[[0-9;]*[A-H])*\Z")
+
+
+def interrupted_write(tap, case, animator):
+    """Ctrl-C while the k-th frame of an animation is being written: a prefix of the
+    frame reaches the terminal, then KeyboardInterrupt is raised out of the write.  (A
+    frame write = a write issued from within the animation loop -- not by its frame
+    clearing or interruption hooks -- that is not a mere cursor movement.)"""
+    k, frac = case["ki_write"]
+    n = [0]
+
+    def on_op(kind, idx, data):
+        if kind != "write" or not data or n[0] >= k:
+            return
+        if _CURSOR_ONLY.match(data):
+            return
+        f, inside = sys._getframe(3), False
+        while f is not None and not inside:
+            name = f.f_code.co_name
+            if name.startswith(("_clear_frame", "_handle_interrupted_draw")):
+                return
+            inside = name == animator
+            f = f.f_back
+        if not inside:
+            return
+        n[0] += 1
+        if n[0] == k:
+            cut = int(len(data) * frac)
+            tap._o.write(data[:cut])
+            tap._o.flush()
+            tap.cut = (cut, len(data))
+            raise KeyboardInterrupt
+
+    tap.on_op = on_op
+    tap.cut = None
+
+
+def judge_unfinished(data, rows, cols, personality, r0, PH, what):
+    """The call ended before / while a frame was completed: where the cursor belongs is
+    not defined by a frame; but if the region has been drawn on, the call must not return
+    with the cursor inside it (nor hidden)."""
+    T = dl.new_screen(rows, cols, personality, r0)
+    init = dl.screen_view(dl.new_screen(rows, cols, personality, r0))[0]
+    T.feed(data.replace(dl.MARK, b"").decode("utf-8", "replace"))
+    grid = dl.screen_view(T)[0]
+    top, bottom = r0 - T.scrolls, r0 + PH - 1 - T.scrolls
+    touched = any(grid[r] != init[r + T.scrolls] for r in range(max(top, 0), min(bottom, rows - 1) + 1) if 0 <= r + T.scrolls < rows)
+    errs = []
+    if r0 + PH > rows and what != "before the first frame":
+        # the region did not fit below the cursor: how far the screen had scrolled when the
+        # frame was cut short decides where its (unwritten) remainder would be
+        touched = False
+    if touched and T.r <= bottom:
+        errs.append(("cursor-inside-region", "the region (rows %d..%d) was drawn on %s, the call returned with the cursor on row %d" % (top, bottom, what, T.r)))
+    if not T.visible:
+        errs.append(("cursor-hidden",))
+    return errs, T
+
+
 # ----------------------------------------------------------------------------- new API
 
 
@@ -163,6 +223,8 @@ def run_new(case, env, res):
     saved = sys.stdout
     sys.stdout = tap
     exc = None
+    if animated and case.get("ki_write"):
+        interrupted_write(tap, case, "_animate_")
     try:
         with dl.patched_time(interruptible_time(case)):
             subj.draw(None, padding, animate=case["animate"], loops=case["loops"], cache=case["cache"], check_size=case["check_size"], allow_scroll=case["allow_scroll"], hide_cursor=case["hide_cursor"], echo_input=case["echo_input"])
@@ -199,6 +261,10 @@ def run_new(case, env, res):
         # Ctrl-C during the k-th wait: k frames were shown, the call ends silently
         order = order[: case["ki_sleep"]]
         res.count("animations ended by Ctrl-C between two frames")
+    if animated and case.get("ki_write") and getattr(tap, "cut", None):
+        res.count("animations ended by Ctrl-C while a frame was being written")
+        errs, T = judge_unfinished(data, rows, cols, "other", r0, PH, "and frame %d cut short after %d of %d characters" % ((case["ki_write"][0],) + tap.cut))
+        return errs
     if not order:
         # INDEFINITE source with no frame at all: nothing but the final newline
         refs, order = [""], []
@@ -210,6 +276,8 @@ def gen_new(rnd):
     W, H = rnd.randint(1, min(cols + 1, 10)), rnd.randint(1, min(rows + 1, 6))
     r = rnd.random()
     case = dict(api="new", term=[cols, rows], size=[W, H], kind=rnd.choice(["text", "text", "sgr", "ech", "digits"]), animate=rnd.random() < 0.9, loops=rnd.choice([1, 1, 2, 3]), cache=rnd.choice([False, True, 3, 100]), check_size=rnd.random() < 0.8, allow_scroll=rnd.random() < 0.3, hide_cursor=rnd.random() < 0.8, echo_input=rnd.random() < 0.3, tty=rnd.random() < 0.85, r0f=rnd.choice([0, 1000, 1000, rnd.randint(0, 1000)]), ki_sleep=rnd.choice([None, None, None, 1, 2, 3, 5]))
+    if case["ki_sleep"] is None and rnd.random() < 0.25:
+        case["ki_write"] = [rnd.choice([1, 1, 2, 3]), rnd.choice([0.0, rnd.random(), rnd.random(), 0.999])]
     if r < 0.3:
         case["n"] = 1
     elif r < 0.4:
@@ -287,6 +355,8 @@ def run_old(case, env, res, tmpdir, state):
             return real_render(*a, **k)
 
         image._render_image = interrupted_render
+    if animation and case.get("ki_write"):
+        interrupted_write(tap, case, "_display_animated")
     try:
         with dl.patched_time(interruptible_time(case)):
             image.draw(h, pw, v, ph, alpha, animate=case["animate"], repeat=case["repeat"], cached=case["cached"], scroll=case["scroll"], check_size=case["check_size"], **style)
@@ -336,23 +406,16 @@ def run_old(case, env, res, tmpdir, state):
             order = order[: case["ki_render"] - 1]
             res.count("animations ended by Ctrl-C while a frame was being rendered")
             if not order:
-                # no frame was completed: where the cursor would belong is not defined by
-                # a frame; but if the style has already drawn on the region (WezTerm's
-                # pre-erase), the call must not return with the cursor inside it
-                T = dl.new_screen(rows, cols, personality, r0)
-                init = dl.screen_view(dl.new_screen(rows, cols, personality, r0))[0]
-                T.feed(data.replace(dl.MARK, b"").decode("utf-8", "replace"))
-                grid = dl.screen_view(T)[0]
-                top, bottom = r0 - T.scrolls, r0 + PH - 1 - T.scrolls
-                touched = any(grid[r] != init[r + T.scrolls] for r in range(max(top, 0), min(bottom, rows - 1) + 1) if 0 <= r + T.scrolls < rows)
-                errs = []
-                if touched and T.r <= bottom:
-                    errs.append(("cursor-inside-region", "the region (rows %d..%d) was drawn on before the first frame, the call returned with the cursor on row %d" % (top, bottom, T.r)))
-                if not T.visible:
-                    errs.append(("cursor-hidden",))
+                # no frame was completed; but if the style has already drawn on the region
+                # (WezTerm's pre-erase), the call must not return with the cursor inside it
+                errs, T = judge_unfinished(data, rows, cols, personality, r0, PH, "before the first frame")
                 if not T.sgr_default():
                     errs.append(("sgr-not-reset", T.fg, T.bg))
                 return errs
+        if animation and case.get("ki_write") and getattr(tap, "cut", None):
+            res.count("animations ended by Ctrl-C while a frame was being written")
+            errs, T = judge_unfinished(data, rows, cols, personality, r0, PH, "and frame %d cut short after %d of %d characters" % ((case["ki_write"][0],) + tap.cut))
+            return errs
         if not case["tty"]:
             pass
         if os.environ.get("VERIF_DEBUG_C06"):
@@ -401,6 +464,8 @@ def gen_old(rnd, persona):
     )
     if case["ki_sleep"] is None and rnd.random() < 0.25:
         case["ki_render"] = rnd.choice([1, rnd.randint(1, frames)])
+    elif case["ki_sleep"] is None and rnd.random() < 0.3:
+        case["ki_write"] = [rnd.choice([1, 1, 2, 3]), rnd.choice([0.0, rnd.random(), rnd.random(), 0.999])]
     if style == "kitty":
         kw = {}
         if rnd.random() < 0.3:
@@ -436,6 +501,14 @@ def corner_cases(persona, index):
                 yield dict(base, ki_sleep=None, ki_render=1)
                 yield dict(base, ki_sleep=1)
                 yield dict(base, ki_sleep=None, ki_render=2)
+                for k in (1, 2, 4):
+                    yield dict(base, ki_sleep=None, ki_write=[k, 0.5])
+    if index == 0:
+        for r0f in (0, 200, 1000):
+            for pad in (dict(type="aligned", width=10, height=9, h=1, v=1, fill=" "), dict(type="exact", dims=[1, 2, 1, 2], fill="."), dict(type="exact", dims=[0, 0, 0, 0], fill=" ")):
+                for k in (1, 2):
+                    for frac in (0.0, 0.4, 0.8):
+                        yield dict(api="new", term=[30, 14], size=[6, 5], kind="text", animate=True, loops=2, cache=False, check_size=True, allow_scroll=False, hide_cursor=True, echo_input=False, tty=True, r0f=r0f, ki_sleep=None, n=3, pad=pad, ki_write=[k, frac])
 
 
 def run_shard(shard, env):
